@@ -96,3 +96,576 @@ Proof.
     pose proof (lin_le _ _ L (RClo u)) as LE. unfold bal in *. rewrite cmops_app. simpl in LE. lia.
   - pose proof (handle_law _ _ _ _ (RRet r) (Lin_NB _ _ _ L) NN E) as G. rewrite emb_ret in G. lia.
 Qed.
+
+(* ------------------------------------------------------------------ *)
+(** * Re-establishing the relation after a step that leaves [a_sent] / [a_inv] alone *)
+
+Lemma mnum_tl k : existsb mnum k = false -> existsb mnum (tl k) = false.
+Proof. destruct k; simpl; auto. intros H. apply orb_false_elim in H as [_ H]. exact H. Qed.
+
+Lemma RA_quiet m m' k k' s s' :
+  RA m k s -> (forall r v, ~ pend k r v) -> a_sent m' = a_sent m -> a_inv m' = a_inv m -> sent_prev m' = false ->
+  existsb mnum k' = false -> (forall r, bal (RRet r) k' s' < 0 -> LostC k' s') -> (k' = [] -> finA m' = true) ->
+  RA m' k' s'.
+Proof.
+  intros R NP ES EI SP MN BL FN. split; auto.
+  - intros r v H. rewrite ES in H. rewrite EI. destruct (ra_sent _ _ _ R r v H) as [A|A]; [left; exact A | exfalso; eapply NP; eauto].
+  - intros r v H. unfold sent_prev in SP. rewrite H in SP. discriminate.
+  - apply mnum_tl; auto.
+  - intros r rk v k0 ->. simpl in MN. discriminate.
+Qed.
+
+Lemma not_pend_head mo k0 : mnum mo = false -> forall r v, ~ pend (mo :: k0) r v.
+Proof. intros H r v (rk & k1 & E). inversion E; subst. discriminate. Qed.
+
+Lemma RA_sent_prev m mo k0 s : RA m (mo :: k0) s -> mnum mo = false -> sent_prev m = false.
+Proof.
+  intros R H. unfold sent_prev. destruct (a_prev m) as [[]|] eqn:P; auto.
+  exfalso. eapply (not_pend_head mo k0 H). eapply ra_prev; eauto.
+Qed.
+
+Lemma tail_nonempty mo k0 s pre s' : Tail (mo :: k0) s -> mo <> MLeaks -> handle mo s = (pre, s') -> pre ++ k0 <> [].
+Proof.
+  intros T NL E. destruct T as [w K _|w K _|K _ _|K]; try discriminate.
+  - destruct w as [|x w]; simpl in K; inversion K; subst.
+    + simpl in E. inversion E. discriminate.
+    + intros H. apply app_eq_nil in H as [_ H]. destruct w; discriminate.
+  - destruct w as [|x w]; simpl in K; inversion K; subst.
+    + intros H. apply app_eq_nil in H as [_ H]. discriminate.
+    + intros H. apply app_eq_nil in H as [_ H]. destruct w; discriminate.
+  - inversion K; subst. congruence.
+Qed.
+
+Lemma step_handle mo k0 s pre s' : handle mo s = (pre, s') -> step (mo :: k0) s = Some (pre ++ k0, s').
+Proof. intros E. simpl. rewrite E. reflexivity. Qed.
+
+Lemma specialA_mnum mo : specialA mo = false -> mnum mo = false.
+Proof. destruct mo; simpl; auto. discriminate. Qed.
+
+(** every micro-op that does not speak about Rets *)
+Lemma IA_neutral mo k0 s pre s' m :
+  Lin (mo :: k0) s -> Tail (mo :: k0) s -> specialA mo = false -> handle mo s = (pre, s') ->
+  monr stepA iA (tr s) = Some m -> RA m (mo :: k0) s ->
+  exists m', monr stepA iA (tr s') = Some m' /\ RA m' (pre ++ k0) s'.
+Proof.
+  intros L T SP E M R.
+  destruct (handle_A _ _ _ _ E SP) as [[evs [TR NE]] MN].
+  pose proof (specialA_mnum _ SP) as NM.
+  destruct (monA_neutral evs _ _ NE M (RA_sent_prev _ _ _ _ R NM)) as (m' & M' & A & B & C & D).
+  exists m'. rewrite TR. split; [exact M'|].
+  eapply RA_quiet; eauto.
+  - apply not_pend_head; auto.
+  - rewrite mnum_app, MN. simpl. apply (ra_tail _ _ _ R).
+  - intros r. eapply bal_ret_step; eauto. apply step_handle; auto. apply (ra_bal _ _ _ R).
+  - intros K. exfalso. eapply tail_nonempty; eauto. intros ->. discriminate.
+Qed.
+
+(* ------------------------------------------------------------------ *)
+(** * Creation of a Ret *)
+
+Lemma bind_tr s h v l s' : bind s h v = (l, s') -> tr s' = tr s.
+Proof. unfold bind. destruct (aget (env s) h); intros Q; inversion Q; reflexivity. Qed.
+
+Lemma newret_shape h r kd s pre s' :
+  do_act (ANewRet h r kd) s = (pre, s') ->
+  existsb mnum pre = false /\
+  (evs_in pbA s s' \/
+   exists evs1 evs2, tr s' = evs2 ++ ERetNew r :: evs1 ++ tr s /\ forallb pbA evs1 = true /\ forallb pbA evs2 = true).
+Proof.
+  unfold do_act. destruct kd as [caps body|ht c|ht c].
+  - destruct (take_caps caps s) as [cv s1] eqn:T. intros Q. split; [eapply bind_mnum; eauto|]. right.
+    assert (E1 : evs_in pbA s s1) by ei_tac. destruct E1 as [evs1 [A B]].
+    exists evs1, []. rewrite (bind_tr _ _ _ _ _ Q). simpl. rewrite A. auto.
+  - destruct (lookup s ht) as [v|]; [|intros Q; split; [eapply bad_mnum; eauto | left; ei_tac]].
+    destruct (handle_actor v) as [a|]; [|intros Q; split; [eapply bad_mnum; eauto | left; ei_tac]].
+    destruct (inst_call c (fun b => KMeth a b None) (ref_clone s a)) as [ci s2] eqn:I.
+    intros Q. split; [eapply bind_mnum; eauto|]. right.
+    assert (E1 : evs_in pbA s s2) by ei_tac. destruct E1 as [evs1 [A B]].
+    exists evs1, [ERetTo r (ci_uid ci) false]. rewrite (bind_tr _ _ _ _ _ Q). simpl. rewrite A. auto.
+  - destruct (lookup s ht) as [v|]; [|intros Q; split; [eapply bad_mnum; eauto | left; ei_tac]].
+    destruct (handle_actor v) as [a|]; [|intros Q; split; [eapply bad_mnum; eauto | left; ei_tac]].
+    destruct (inst_call c (fun b => KMeth a b None) (ref_clone s a)) as [ci s2] eqn:I.
+    intros Q. split; [eapply bind_mnum; eauto|]. right.
+    assert (E1 : evs_in pbA s s2) by ei_tac. destruct E1 as [evs1 [A B]].
+    exists evs1, [ERetTo r (ci_uid ci) true]. rewrite (bind_tr _ _ _ _ _ Q). simpl. rewrite A. auto.
+Qed.
+
+Lemma creT_ret_new r evs1 evs2 t :
+  forallb pbA evs1 = true -> forallb pbA evs2 = true ->
+  creT (RRet r) (evs2 ++ ERetNew r :: evs1 ++ t) = 1 + creT (RRet r) t.
+Proof.
+  intros A B. rewrite creT_app. cbn [creT]. rewrite creT_app, cre1_ret, N.eqb_refl.
+  assert (Z : forall l, forallb pbA l = true -> creT (RRet r) l = 0).
+  { induction l as [|e l IH]; cbn [creT forallb]; auto. intros H. apply andb_prop in H as [H1 H2]. rewrite (IH H2), cre1_ret.
+    destruct e; try reflexivity. discriminate H1. }
+  rewrite (Z _ A), (Z _ B). lia.
+Qed.
+
+Lemma IA_newret h r kd l k0 s pre s' m :
+  Lin (MActs (ANewRet h r kd :: l) :: k0) s -> Tail (MActs (ANewRet h r kd :: l) :: k0) s ->
+  handle (MActs (ANewRet h r kd :: l)) s = (pre, s') ->
+  monr stepA iA (tr s) = Some m -> RA m (MActs (ANewRet h r kd :: l) :: k0) s ->
+  BadT (tr s') \/ exists m', monr stepA iA (tr s') = Some m' /\ RA m' (pre ++ k0) s'.
+Proof.
+  intros L T E M R. pose proof E as E0. cbn [handle] in E.
+  destruct (do_act (ANewRet h r kd) s) as [p s1] eqn:DA. inversion E; subst pre s1; clear E.
+  destruct (newret_shape _ _ _ _ _ _ DA) as [MN [[evs [TR NE]]|(evs1 & evs2 & TR & N1 & N2)]].
+  - (* ill-typed: nothing created *)
+    right. destruct (monA_neutral evs _ _ NE M (RA_sent_prev _ _ _ _ R eq_refl)) as (m' & M' & A & B & C & D).
+    exists m'. rewrite TR. split; [exact M'|].
+    eapply RA_quiet; eauto.
+    + apply not_pend_head; reflexivity.
+    + rewrite mnum_app, mnum_app, MN. simpl. apply (ra_tail _ _ _ R).
+    + intros r0. eapply bal_ret_step; eauto. apply step_handle; auto. apply (ra_bal _ _ _ R).
+    + intros K. exfalso. eapply tail_nonempty; eauto. discriminate.
+  - destruct (monA_neutral evs1 _ _ N1 M (RA_sent_prev _ _ _ _ R eq_refl)) as (m1 & M1 & A1 & B1 & C1 & D1).
+    destruct (nmem r (a_new m1)) eqn:NM.
+    + (* the id was already used *)
+      left. left. exists r. rewrite TR, (creT_ret_new r _ _ _ N1 N2).
+      destruct (monA_facts _ _ M) as (F1 & _ & _). rewrite F1, <- A1, NM. lia.
+    + right.
+      assert (M2 : monr stepA iA (ERetNew r :: evs1 ++ tr s) = Some (mkA (r :: a_new m1) (a_sent m1) (a_inv m1) (Some (ERetNew r)))).
+      { simpl. rewrite M1. unfold stepA, adjA. unfold sent_prev in D1.
+        destruct (a_prev m1) as [[]|]; try discriminate D1; cbn [negb a_new a_sent a_inv a_prev]; rewrite NM; reflexivity. }
+      destruct (monA_neutral evs2 _ _ N2 M2 eq_refl) as (m' & M' & A & B & C & D).
+      exists m'. rewrite TR. split; [exact M'|].
+      eapply RA_quiet; eauto.
+      * apply not_pend_head; reflexivity.
+      * rewrite B. simpl. exact B1.
+      * rewrite C. simpl. exact C1.
+      * rewrite mnum_app, mnum_app, MN. simpl. apply (ra_tail _ _ _ R).
+      * intros r0. eapply bal_ret_step; eauto. apply step_handle; auto. apply (ra_bal _ _ _ R).
+      * intros K. exfalso. eapply tail_nonempty; eauto. discriminate.
+Qed.
+
+(* ------------------------------------------------------------------ *)
+(** * Sending a value through a Ret *)
+
+Lemma take_tr s h o s' : take s h = (o, s') -> tr s' = tr s.
+Proof. unfold take. repeat dest_match; intros Q; inversion Q; reflexivity. Qed.
+
+Lemma retsend_shape h v s pre s' :
+  do_act (ARetSend h v) s = (pre, s') ->
+  (exists rid rk s1, take s h = (Some (HRet (Ret rid rk)), s1) /\
+                     pre = [MRetInvoke (Ret rid rk) (Some (MNum v))] /\ s' = emit s1 (ERetSent rid v)) \/
+  (existsb mnum pre = false /\ evs_in pbA s s').
+Proof.
+  unfold do_act. destruct (lookup s h) as [[| | |[rid rk]| |]|] eqn:LK; try (solve [intros Q; right; split; [eapply bad_mnum; eassumption | ei_tac]]).
+  destruct (lookup_take _ _ _ LK) as [s1 T]. rewrite T. intros Q; inversion Q; subst. left. exists rid, rk, s1. auto.
+Qed.
+
+Lemma cret_self rid rk : ukind (Ret rid rk) = true -> 1 <= cret (RRet rid) (Ret rid rk).
+Proof.
+  rewrite cret_eq. destruct rk as [caps b|a ci|a ci|a inner|p key inner]; simpl; try discriminate; intros _.
+  - rewrite crk_clos, ind_refl. pose proof (cenv_nn (RRet rid) caps). lia.
+  - rewrite crk_to, ind_refl. pose proof (ind_range (RRet rid) (REmb rid (ci_uid ci) false)).
+    pose proof (badif_nn (RRet rid) (realk (ci_kind ci))). pose proof (cci_nn (RRet rid) ci). lia.
+  - rewrite crk_someto, ind_refl. pose proof (ind_range (RRet rid) (REmb rid (ci_uid ci) true)).
+    pose proof (badif_nn (RRet rid) (realk (ci_kind ci))). pose proof (cci_nn (RRet rid) ci). lia.
+Qed.
+
+(* a Ret that occurs in the configuration is created and not yet invoked *)
+Lemma present_live k s m rid :
+  Lin k s -> monr stepA iA (tr s) = Some m -> 1 <= cnt (RRet rid) k s ->
+  nmem rid (a_new m) = true /\ nget (a_inv m) rid = None.
+Proof.
+  intros L M P. pose proof (Lin_live _ _ (RRet rid) L ltac:(discriminate)) as LV.
+  destruct (monA_facts _ _ M) as (F1 & F2 & _). rewrite F1, F2 in LV.
+  destruct (nmem rid (a_new m)); destruct (nget (a_inv m) rid); try lia. auto.
+Qed.
+
+Lemma IA_retsend h v l k0 s pre s' m :
+  Lin (MActs (ARetSend h v :: l) :: k0) s -> Tail (MActs (ARetSend h v :: l) :: k0) s ->
+  handle (MActs (ARetSend h v :: l)) s = (pre, s') ->
+  monr stepA iA (tr s) = Some m -> RA m (MActs (ARetSend h v :: l) :: k0) s ->
+  exists m', monr stepA iA (tr s') = Some m' /\ RA m' (pre ++ k0) s'.
+Proof.
+  intros L T E M R. pose proof E as E0. cbn [handle] in E.
+  destruct (do_act (ARetSend h v) s) as [p s1] eqn:DA. inversion E; subst pre s1; clear E.
+  pose proof (RA_sent_prev _ _ _ _ R eq_refl) as SP.
+  destruct (retsend_shape _ _ _ _ _ DA) as [(rid & rk & s1 & TK & -> & ->)|[MN [evs [TR NE]]]].
+  - (* the Ret is taken out of the scope and invoked next *)
+    pose proof (take_W (RRet rid) _ _ _ _ TK) as TW. pose proof (take_W RBad _ _ _ _ TK) as TB.
+    pose proof (take_tr _ _ _ _ TK) as TT. unfold W in TW, TB. rewrite TT in TW, TB. simpl copt in TW, TB.
+    assert (UK : ukind (Ret rid rk) = true).
+    { apply nb_real. pose proof (Lin_wellkinded _ _ L) as WK. unfold cnt in WK.
+      pose proof (cmops_nn RBad (MActs (ARetSend h v :: l) :: k0)). pose proof (cst_nn RBad s1).
+      rewrite cv_ret in TB. pose proof (cret_nn RBad (Ret rid rk)). pose proof (badif_nn RBad (ukind (Ret rid rk))). lia. }
+    assert (PR : 1 <= cnt (RRet rid) (MActs (ARetSend h v :: l) :: k0) s).
+    { unfold cnt. pose proof (cmops_nn (RRet rid) (MActs (ARetSend h v :: l) :: k0)). pose proof (cst_nn (RRet rid) s1).
+      rewrite cv_ret in TW. pose proof (cret_self _ _ UK). pose proof (badif_nn (RRet rid) (ukind (Ret rid rk))). lia. }
+    destruct (present_live _ _ _ _ L M PR) as [NW NI].
+    assert (NS : nget (a_sent m) rid = None).
+    { destruct (nget (a_sent m) rid) as [v'|] eqn:SV; auto.
+      destruct (ra_sent _ _ _ R _ _ SV) as [A|A]; [congruence | exfalso; eapply not_pend_head; [|exact A]; reflexivity]. }
+    eexists. split.
+    + cbn [emit tr set_tr]. simpl monr. rewrite TT, M. unfold stepA, adjA. unfold sent_prev in SP.
+      destruct (a_prev m) as [[]|]; try discriminate SP; cbn [negb a_new a_sent a_inv a_prev]; rewrite NW, NS, NI; reflexivity.
+    + split; cbn [a_new a_sent a_inv a_prev app tl].
+      * intros r v0. rewrite nget_nset. destruct (N.eqb r rid) eqn:Q.
+        -- apply N.eqb_eq in Q. subst r. intros X; inversion X; subst. right. exists rk, (MActs l :: k0). reflexivity.
+        -- intros X. destruct (ra_sent _ _ _ R _ _ X) as [A|A]; [left; exact A | exfalso; eapply not_pend_head; [|exact A]; reflexivity].
+      * intros r v0 X. inversion X; subst. exists rk, (MActs l :: k0). reflexivity.
+      * simpl. apply (ra_tail _ _ _ R).
+      * intros r rk0 v0 k1 X. inversion X; subst. split; [reflexivity|]. rewrite nget_nset, N.eqb_refl. reflexivity.
+      * intros r. eapply (bal_ret_step _ _ _ _ r L (step_handle _ _ _ _ _ E0)). apply (ra_bal _ _ _ R).
+      * discriminate.
+  - destruct (monA_neutral evs _ _ NE M SP) as (m' & M' & A & B & C & D).
+    exists m'. rewrite TR. split; [exact M'|].
+    eapply RA_quiet; eauto.
+    + apply not_pend_head; reflexivity.
+    + rewrite mnum_app, mnum_app, MN. simpl. apply (ra_tail _ _ _ R).
+    + intros r0. eapply bal_ret_step; eauto. apply step_handle; auto. apply (ra_bal _ _ _ R).
+    + intros K. exfalso. eapply tail_nonempty; eauto. discriminate.
+Qed.
+
+(* ------------------------------------------------------------------ *)
+(** * Invocation of a Ret *)
+
+Lemma ret_invoke_user rid rk m0 s pre s' :
+  ukind (Ret rid rk) = true -> ret_invoke (Ret rid rk) m0 s = (pre, s') ->
+  existsb mnum pre = false /\
+  exists evs2, tr s' = evs2 ++ ERet rid (msg_num m0) :: tr s /\ forallb pbA evs2 = true.
+Proof.
+  unfold ret_invoke. destruct rk as [caps b|a ci|a ci|a inner|p key inner]; simpl ukind; try discriminate; intros _.
+  - intros Q; inversion Q; subst. split; [reflexivity|]. exists []. split; reflexivity.
+  - intros Q; inversion Q; subst. split; [reflexivity|]. eexists [_]. split; reflexivity.
+  - destruct m0 as [m1|]; intros Q; inversion Q; subst; (split; [reflexivity|]).
+    + eexists [_]. split; reflexivity.
+    + exists []. split; reflexivity.
+Qed.
+
+Lemma ret_invoke_notif rid rk m0 s pre s' :
+  ukind (Ret rid rk) = false -> (forall v, m0 <> Some (MNum v)) -> ret_invoke (Ret rid rk) m0 s = (pre, s') ->
+  existsb mnum pre = false /\ evs_in pbA s s'.
+Proof.
+  unfold ret_invoke. destruct rk as [caps b|a ci|a ci|a inner|p key inner]; simpl ukind; try discriminate; intros _ NM.
+  - destruct inner as [[p ci]|]; intros Q; inversion Q; subst; (split; [reflexivity | ei_tac]).
+  - destruct m0 as [[v|c]|]; intros Q; inversion Q; subst.
+    + exfalso. eapply NM; reflexivity.
+    + split; [reflexivity | ei_tac].
+    + split; [reflexivity | ei_tac].
+Qed.
+
+Lemma IA_retinvoke r m0 k0 s pre s' m :
+  Lin (MRetInvoke r m0 :: k0) s -> Tail (MRetInvoke r m0 :: k0) s ->
+  handle (MRetInvoke r m0) s = (pre, s') ->
+  monr stepA iA (tr s) = Some m -> RA m (MRetInvoke r m0 :: k0) s ->
+  exists m', monr stepA iA (tr s') = Some m' /\ RA m' (pre ++ k0) s'.
+Proof.
+  intros L T E M R. pose proof E as E0. cbn [handle] in E. destruct r as [rid rk].
+  pose proof (NB_mop _ _ (Lin_NB _ _ _ L)) as NBM. cbn [cmop] in NBM.
+  assert (NF : pre ++ k0 = [] -> False) by (intros K; eapply tail_nonempty; eauto; discriminate).
+  assert (BL : forall r0, bal (RRet r0) (pre ++ k0) s' < 0 -> LostC (pre ++ k0) s').
+  { intros r0. eapply (bal_ret_step _ _ _ _ r0 L (step_handle _ _ _ _ _ E0)). apply (ra_bal _ _ _ R). }
+  destruct (ukind (Ret rid rk)) eqn:UK.
+  - (* a user Ret: its handler runs now, with the value sent or None *)
+    destruct (ret_invoke_user _ _ _ _ _ _ UK E) as [MN (evs2 & TR & N2)].
+    assert (PR : 1 <= cnt (RRet rid) (MRetInvoke (Ret rid rk) m0 :: k0) s).
+    { unfold cnt. cbn [cmops cmop]. pose proof (cret_self _ _ UK). pose proof (cmsg_nn (RRet rid) (Ret rid rk) m0).
+      pose proof (cmops_nn (RRet rid) k0). pose proof (cst_nn (RRet rid) s). lia. }
+    destruct (present_live _ _ _ _ L M PR) as [NW NI].
+    assert (NC : forall c, m0 <> Some (MCause c)).
+    { intros c ->. cbn [cmsg] in NBM. assert (NK : nkind (Ret rid rk) = false) by (destruct rk; try discriminate UK; reflexivity).
+      rewrite NK in NBM. cbn [badif] in NBM. rewrite ind_refl in NBM. pose proof (cret_nn RBad (Ret rid rk)). lia. }
+    assert (ST : opt_n_eqb (msg_num m0) (nget (a_sent m) rid) = true /\ adjA m (ERet rid (msg_num m0)) = true /\
+                 (forall v, nget (a_sent m) rid = Some v -> msg_num m0 = Some v)).
+    { destruct m0 as [[v|c]|].
+      - destruct (ra_head _ _ _ R rid rk v k0 eq_refl) as [P S]. unfold adjA. rewrite P, S. simpl. rewrite !N.eqb_refl.
+        repeat split; auto.
+      - exfalso. eapply NC; reflexivity.
+      - assert (NS : nget (a_sent m) rid = None).
+        { destruct (nget (a_sent m) rid) as [v'|] eqn:SV; auto.
+          destruct (ra_sent _ _ _ R _ _ SV) as [A|(rk' & k1 & A)]; [congruence | inversion A]. }
+        rewrite NS. pose proof (RA_sent_prev _ _ _ _ R eq_refl) as SP. unfold adjA. unfold sent_prev in SP.
+        split; [reflexivity|]. split; [|discriminate]. destruct (a_prev m) as [[]|]; try discriminate SP; reflexivity. }
+    destruct ST as (OK & ADJ & SV).
+    assert (M1 : monr stepA iA (ERet rid (msg_num m0) :: tr s) =
+                 Some (mkA (a_new m) (a_sent m) (nset (a_inv m) rid (msg_num m0)) (Some (ERet rid (msg_num m0))))).
+    { simpl. rewrite M. unfold stepA. rewrite ADJ. cbn [negb a_new a_sent a_inv a_prev]. rewrite NW, NI, OK. reflexivity. }
+    destruct (monA_neutral evs2 _ _ N2 M1 eq_refl) as (m' & M' & A & B & C & D).
+    exists m'. rewrite TR. split; [exact M'|]. split.
+    + intros r v. rewrite B, C. cbn [a_sent a_inv]. rewrite nget_nset. intros X. destruct (N.eqb r rid) eqn:Q.
+      * apply N.eqb_eq in Q. subst r. left. rewrite (SV _ X). reflexivity.
+      * destruct (ra_sent _ _ _ R _ _ X) as [Y|(rk' & k1 & Y)]; [left; exact Y|].
+        inversion Y; subst. rewrite N.eqb_refl in Q. discriminate.
+    + intros r v X. unfold sent_prev in D. rewrite X in D. discriminate.
+    + apply mnum_tl. rewrite mnum_app, MN. simpl. apply (ra_tail _ _ _ R).
+    + intros r rk0 v k1 X. exfalso. assert (Y : existsb mnum (pre ++ k0) = false) by (rewrite mnum_app, MN; simpl; apply (ra_tail _ _ _ R)).
+      rewrite X in Y. discriminate.
+    + exact BL.
+    + intros K. exfalso. auto.
+  - (* a notifier or a slab wrapper: nothing for this monitor *)
+    assert (NM : forall v, m0 <> Some (MNum v)).
+    { intros v ->. cbn [cmsg] in NBM. rewrite UK in NBM. cbn [badif] in NBM. rewrite ind_refl in NBM.
+      pose proof (cret_nn RBad (Ret rid rk)). lia. }
+    destruct (ret_invoke_notif _ _ _ _ _ _ UK NM E) as [MN [evs [TR NE]]].
+    assert (HM : mnum (MRetInvoke (Ret rid rk) m0) = false).
+    { destruct m0 as [[v|c]|]; try reflexivity. exfalso. eapply NM; reflexivity. }
+    destruct (monA_neutral evs _ _ NE M (RA_sent_prev _ _ _ _ R HM)) as (m' & M' & A & B & C & D).
+    exists m'. rewrite TR. split; [exact M'|].
+    apply (RA_quiet m m' _ _ s s' R); auto.
+    + apply not_pend_head; auto.
+    + rewrite mnum_app, MN. simpl. apply (ra_tail _ _ _ R).
+Qed.
+
+(* ------------------------------------------------------------------ *)
+(** * The end: the leak report *)
+
+Section NotifyShape.
+Transparent cret crk.
+Fixpoint nkind_notify (nt : ret) {struct nt} : nkind nt = true -> exists a, 1 <= cret (RNot a) nt.
+Proof.
+  destruct nt as [rid k]. destruct k as [caps b|a ci|a ci|a inner|p key inner]; simpl; try discriminate.
+  - intros _. exists a. rewrite ind_refl. destruct inner as [[p ci]|]; [|lia].
+    pose proof (badif_nn (RNot a) (realk (ci_kind ci))). pose proof (cci_nn (RNot a) ci). lia.
+  - intros H. destruct (nkind_notify inner H) as [a A]. exists a. exact A.
+Qed.
+End NotifyShape.
+
+Lemma cacts_container r l :
+  0 < cacts (RRet r) l -> cacts RBad l = 0 -> exists y, container y /\ 0 < cacts y l.
+Proof.
+  induction l as [|[a x] l IH]; simpl; [lia|]. intros P B.
+  pose proof (cactor_nn RBad a x). pose proof (cacts_nn RBad l).
+  pose proof (cactor_nn (RRet r) a x). pose proof (cacts_nn (RRet r) l).
+  destruct (Z.ltb 0 (cactor (RRet r) a x)) eqn:E.
+  - apply Z.ltb_lt in E. unfold cactor in *.
+    pose proof (cstate_nn (RRet r) a (a_state x)). pose proof (cnotopt_nn (RRet r) (a_notify x)).
+    pose proof (cstate_nn RBad a (a_state x)). pose proof (cnotopt_nn RBad (a_notify x)).
+    destruct (Z.ltb 0 (cstate (RRet r) a (a_state x))) eqn:F.
+    + apply Z.ltb_lt in F. destruct (a_state x) as [held|sh slab nx|] eqn:SA; simpl in F; try lia.
+      * destruct (cq_pos_clo _ _ F) as [u U]. exists (RClo u). split; [exact I|]. simpl.
+        pose proof (cnotopt_nn (RClo u) (a_notify x)). pose proof (cacts_nn (RClo u) l). lia.
+      * exists (RVal a). split; [exact I|]. simpl. rewrite ind_refl.
+        pose proof (cenv_nn (RVal a) sh). pose proof (cnotopt_nn (RVal a) (a_notify x)). pose proof (cacts_nn (RVal a) l). lia.
+    + apply Z.ltb_ge in F. destruct (a_notify x) as [nt|] eqn:NT; simpl in *; [|lia].
+      assert (NK : nkind nt = true).
+      { apply nb_real. pose proof (badif_nn RBad (nkind nt)). pose proof (cret_nn RBad nt). lia. }
+      destruct (nkind_notify nt NK) as [a0 A0]. exists (RNot a0). split; [exact I|].
+      pose proof (cstate_nn (RNot a0) a (a_state x)). pose proof (badif_nn (RNot a0) (nkind nt)). pose proof (cacts_nn (RNot a0) l). lia.
+  - apply Z.ltb_ge in E. destruct IH as (y & C & Y); [lia | lia |]. exists y. split; auto. pose proof (cactor_nn y a x). lia.
+Qed.
+
+(** at the end a Ret can only sit inside a closure, an actor value or a notifier *)
+Lemma ret_in_container r s :
+  1 <= cst (RRet r) s -> env s = [] -> frames s = [] -> cst RBad s = 0 -> exists y, container y /\ 1 <= cst y s.
+Proof.
+  unfold cst. intros P EN FR NB. rewrite EN, FR in *. simpl in *.
+  pose proof (cq_nn (RRet r) (mainq s)). pose proof (cq_nn (RRet r) (lazyq s)). pose proof (cq_nn (RRet r) (idleq s)).
+  pose proof (ctim_nn (RRet r) (timers s)). pose proof (cacts_nn (RRet r) (actors s)).
+  assert (Q : forall l, 0 < cq (RRet r) l -> exists u, 1 <= cq (RClo u) l).
+  { intros l H4. destruct (cq_pos_clo _ _ H4) as [u U]. exists u. lia. }
+  destruct (Z.ltb 0 (cq (RRet r) (mainq s))) eqn:E1.
+  { apply Z.ltb_lt in E1. destruct (Q _ E1) as [u U]. exists (RClo u). split; [exact I|].
+    pose proof (cq_nn (RClo u) (lazyq s)). pose proof (cq_nn (RClo u) (idleq s)). pose proof (ctim_nn (RClo u) (timers s)).
+    pose proof (cacts_nn (RClo u) (actors s)). simpl. lia. }
+  destruct (Z.ltb 0 (cq (RRet r) (lazyq s))) eqn:E2.
+  { apply Z.ltb_lt in E2. destruct (Q _ E2) as [u U]. exists (RClo u). split; [exact I|].
+    pose proof (cq_nn (RClo u) (mainq s)). pose proof (cq_nn (RClo u) (idleq s)). pose proof (ctim_nn (RClo u) (timers s)).
+    pose proof (cacts_nn (RClo u) (actors s)). simpl. lia. }
+  destruct (Z.ltb 0 (cq (RRet r) (idleq s))) eqn:E3.
+  { apply Z.ltb_lt in E3. destruct (Q _ E3) as [u U]. exists (RClo u). split; [exact I|].
+    pose proof (cq_nn (RClo u) (mainq s)). pose proof (cq_nn (RClo u) (lazyq s)). pose proof (ctim_nn (RClo u) (timers s)).
+    pose proof (cacts_nn (RClo u) (actors s)). simpl. lia. }
+  destruct (Z.ltb 0 (ctim (RRet r) (timers s))) eqn:E4.
+  { apply Z.ltb_lt in E4. rewrite <- cq_map_ti in E4. destruct (Q _ E4) as [u U]. rewrite cq_map_ti in U. exists (RClo u). split; [exact I|].
+    pose proof (cq_nn (RClo u) (mainq s)). pose proof (cq_nn (RClo u) (lazyq s)). pose proof (cq_nn (RClo u) (idleq s)).
+    pose proof (cacts_nn (RClo u) (actors s)). simpl. lia. }
+  apply Z.ltb_ge in E1, E2, E3, E4.
+  assert (AB : cacts RBad (actors s) = 0).
+  { pose proof (cq_nn RBad (mainq s)). pose proof (cq_nn RBad (lazyq s)). pose proof (cq_nn RBad (idleq s)).
+    pose proof (ctim_nn RBad (timers s)). pose proof (cacts_nn RBad (actors s)). lia. }
+  destruct (cacts_container r (actors s)) as (y & C & Y); [lia | exact AB |].
+  exists y. split; auto. simpl.
+  pose proof (cq_nn y (mainq s)). pose proof (cq_nn y (lazyq s)). pose proof (cq_nn y (idleq s)). pose proof (ctim_nn y (timers s)).
+  pose proof (cnu_nn y (nuid s)). lia.
+Qed.
+
+Definition is_model_ev (e : ev) : Prop := exists c a, e = EModel c a /\ c <> M_DRAINLEFT.
+
+Lemma model_evs x evs : Forall is_model_ev evs -> creT x evs = 0 /\ conT x evs = 0 /\ forallb pbA evs = true.
+Proof.
+  induction 1 as [|e l (c & a & -> & _) F (A & B & C)]; [simpl; auto|]. cbn [creT conT forallb cre1 con1 pbA specA negb andb]. rewrite A, B, C. auto.
+Qed.
+
+Definition leak_ev (e : ev) : Prop := exists kd id, e = ELeak kd id /\ kd <> LK_RET.
+
+Lemma monA_leaks evs : forall t m, Forall leak_ev evs -> monr stepA iA t = Some m -> sent_prev m = false ->
+  exists m', monr stepA iA (evs ++ t) = Some m' /\ a_new m' = a_new m /\ a_sent m' = a_sent m /\ a_inv m' = a_inv m /\
+             sent_prev m' = false.
+Proof.
+  induction evs as [|e l IH]; simpl; intros t m F M S.
+  - exists m. auto.
+  - inversion F as [|? ? (kd & id & -> & NK) F2]; subst. destruct (IH t m F2 M S) as (m1 & M1 & A & B & C & D).
+    rewrite M1. unfold stepA, adjA. unfold sent_prev in D.
+    destruct (a_prev m1) as [[]|]; try discriminate D; cbn [negb];
+      (destruct (N.eqb kd LK_RET) eqn:Q; [apply N.eqb_eq in Q; congruence|]);
+      (eexists; split; [reflexivity|]; simpl; auto).
+Qed.
+
+Lemma tok_container y : container y -> exists p, tok y = Some p /\ leak_kind (fst p) = true.
+Proof. destruct y; simpl; try contradiction; intros _; eexists; split; reflexivity. Qed.
+
+Lemma IA_leaks k0 s pre s' m :
+  Lin (MLeaks :: k0) s -> Tail (MLeaks :: k0) s -> handle MLeaks s = (pre, s') ->
+  monr stepA iA (tr s) = Some m -> RA m (MLeaks :: k0) s ->
+  BadT (tr s') \/ exists m', monr stepA iA (tr s') = Some m' /\ RA m' (pre ++ k0) s'.
+Proof.
+  intros L T E M R. pose proof E as E0. destruct (Tail_leaks _ _ T) as (-> & EN & FR).
+  cbn [handle] in E. inversion E; subst pre s'; clear E.
+  destruct (class_flags_tr s) as (fl & TR1 & FM & _).
+  set (t1 := tr (class_flags s)) in *.
+  set (LL := live_after (rev t1) []).
+  assert (TRS : tr (set_tr (class_flags s) (rev (leaks (rev t1)) ++ t1)) =
+                rev (map (fun p : N * N => ELeak (fst p) (snd p)) LL) ++ t1) by reflexivity.
+  rewrite TRS.
+  assert (CT : forall x, creT x t1 = creT x (tr s) /\ conT x t1 = conT x (tr s)).
+  { intros x. rewrite TR1, creT_app, conT_app. destruct (model_evs x _ FM) as (A & B & _). lia. }
+  destruct (model_evs (RRet 0) _ FM) as (_ & _ & NF).
+  pose proof (RA_sent_prev _ _ _ _ R eq_refl) as SP.
+  destruct (monA_neutral fl _ _ NF M SP) as (m1 & M1 & A1 & B1 & C1 & D1). rewrite <- TR1 in M1. fold t1 in M1.
+  (* a live container is reported *)
+  assert (REP : forall y, container y -> 0 < creT y (tr s) - conT y (tr s) -> exists p, In p LL /\ leak_kind (fst p) = true).
+  { intros y C P. destruct (tok_container y C) as (p & TK & LK). exists p. split; auto.
+    apply (live_reported y p t1 TK). destruct (CT y) as [X Y]. lia. }
+  destruct (existsb (fun p => leak_kind (fst p)) LL) eqn:EX.
+  { (* some container leaked: outside the hypothesis of the theorem *)
+    left. right. apply existsb_exists in EX as (p & IN & LK). exists (fst p), (snd p). split; auto.
+    apply in_or_app. left. apply -> in_rev. apply in_map_iff. exists p. auto. }
+  right.
+  assert (NOC : forall p, In p LL -> leak_kind (fst p) = false).
+  { intros p IN. destruct (leak_kind (fst p)) eqn:LK; auto.
+    assert (existsb (fun p => leak_kind (fst p)) LL = true) by (apply existsb_exists; eauto). congruence. }
+  (* hence every Ret created has been invoked *)
+  assert (DONE : forall r, creT (RRet r) (tr s) - conT (RRet r) (tr s) <= 0).
+  { intros r. destruct (Z.ltb 0 (creT (RRet r) (tr s) - conT (RRet r) (tr s))) eqn:LV; [|apply Z.ltb_ge in LV; lia].
+    apply Z.ltb_lt in LV. exfalso.
+    assert (LC : LostC [MLeaks] s \/ 1 <= cst (RRet r) s).
+    { destruct (Z.ltb (bal (RRet r) [MLeaks] s) 0) eqn:BB.
+      - left. apply Z.ltb_lt in BB. apply (ra_bal _ _ _ R r BB).
+      - right. apply Z.ltb_ge in BB. pose proof (lin_le _ _ L (RRet r)) as LE. unfold bal, W in *. simpl in *. lia. }
+    destruct LC as [(y & C & BY)|PR].
+    - destruct (REP y C) as (p & IN & LK).
+      + unfold bal, W in BY. pose proof (cmops_nn y [MLeaks]). pose proof (cst_nn y s). lia.
+      + rewrite (NOC p IN) in LK. discriminate.
+    - assert (NBS : cst RBad s = 0).
+      { pose proof (Lin_wellkinded _ _ L) as WK. unfold cnt in WK. pose proof (cmops_nn RBad [MLeaks]). pose proof (cst_nn RBad s). lia. }
+      destruct (ret_in_container r s PR EN FR NBS) as (y & C & PY).
+      destruct (REP y C) as (p & IN & LK).
+      + assert (NFy : forall u, y <> RFr u) by (intros u ->; contradiction).
+        pose proof (Lin_live _ _ y L NFy) as LV2. unfold cnt in LV2. pose proof (cmops_nn y [MLeaks]). lia.
+      + rewrite (NOC p IN) in LK. discriminate. }
+  (* so the report names no Ret, and the monitor accepts it *)
+  assert (NORET : forall p, In p LL -> fst p <> LK_RET).
+  { intros [kd id] IN Q. simpl in Q. subst kd.
+    apply cntp_in in IN. change LL with (liveR t1) in IN. rewrite (live_ret_exact t1 m1 id M1) in IN.
+    destruct (CT (RRet id)) as [X Y]. pose proof (DONE id). lia. }
+  assert (FL2 : Forall leak_ev (rev (map (fun p : N * N => ELeak (fst p) (snd p)) LL))).
+  { apply Forall_rev. apply Forall_forall. intros e IN. apply in_map_iff in IN as (p & <- & IP).
+    exists (fst p), (snd p). split; auto. }
+  destruct (monA_leaks _ _ _ FL2 M1 D1) as (m2 & M2 & A2 & B2 & C2 & D2).
+  exists m2. split; [exact M2|]. simpl app.
+  assert (FIN : finA m2 = true).
+  { unfold finA. apply andb_true_intro. split.
+    - apply forallb_forall. intros r IN. rewrite C2, C1. destruct (nget (a_inv m) r) eqn:NI; auto. exfalso.
+      destruct (monA_facts _ _ M) as (F1 & F2 & _). pose proof (DONE r) as DN. rewrite F1, F2, NI in DN.
+      rewrite A2, A1 in IN. assert (NM : nmem r (a_new m) = true).
+      { clear - IN. induction (a_new m) as [|y l IH]; simpl in *; [contradiction|]. destruct IN as [->|IN]; [rewrite N.eqb_refl; reflexivity|].
+        rewrite (IH IN). apply orb_true_r. }
+      rewrite NM in DN. lia.
+    - unfold sent_prev in D2. destruct (a_prev m2) as [[]|]; auto; try discriminate. }
+  split.
+  - intros r v X. rewrite B2, B1 in X. rewrite C2, C1. destruct (ra_sent _ _ _ R _ _ X) as [Y|(rk & k1 & Y)]; [left; exact Y | inversion Y].
+  - intros r v X. unfold sent_prev in D2. rewrite X in D2. discriminate.
+  - reflexivity.
+  - intros r rk v k1 X. discriminate X.
+  - intros r. apply (bal_ret_step _ _ _ _ r L (step_handle _ [] _ _ _ E0)). apply (ra_bal _ _ _ R).
+  - intros _. exact FIN.
+Qed.
+
+(* ------------------------------------------------------------------ *)
+(** * Monitor A: preservation and theorem *)
+
+Theorem step_IA k s k' s' : Lin k s -> Tail k s -> IA k s -> step k s = Some (k', s') -> IA k' s'.
+Proof.
+  intros L T [B|(m & M & R)] H.
+  { left. eapply BadT_ext; eauto. eapply step_ext; eauto. }
+  destruct k as [|mo k0]; [discriminate|]. simpl in H.
+  destruct (handle mo s) as [pre s1] eqn:E. inversion H; subst; clear H.
+  destruct (specialA mo) eqn:SP.
+  - destruct mo; try discriminate SP.
+    + destruct l as [|a l]; [discriminate SP|]. simpl in SP. destruct a; try discriminate SP.
+      * eapply IA_newret; eauto.
+      * right. eapply IA_retsend; eauto.
+    + right. eapply IA_retinvoke; eauto.
+    + eapply IA_leaks; eauto.
+  - right. eapply IA_neutral; eauto.
+Qed.
+
+Lemma IA_init d p : IA (map MTop p ++ [MEpilogue]) (init d).
+Proof.
+  right. exists iA. split; [reflexivity|]. split.
+  - intros r v X. discriminate X.
+  - intros r v X. discriminate X.
+  - assert (forall l, existsb mnum (map MTop l ++ [MEpilogue]) = false) by (induction l; simpl; auto).
+    apply mnum_tl. auto.
+  - intros r rk v k0 X. destruct p; discriminate X.
+  - intros r B. exfalso. pose proof (lin_le _ _ (Lin_init d p) (RRet r)) as LE. unfold bal in *. rewrite cmops_tops in *.
+    unfold W, cst in *. simpl in *. lia.
+  - intros X. destruct p; discriminate X.
+Qed.
+
+Lemma run_invA fuel : forall k s t,
+  Lin k s -> FL k s -> Tail k s -> IA k s -> run fuel k s = Done t ->
+  exists s', t = rev (tr s') /\ (BadT (tr s') \/ exists m, monr stepA iA (tr s') = Some m /\ finA m = true).
+Proof.
+  induction fuel as [|f IH]; intros k s t L F T I H; simpl in H.
+  - destruct k; [|discriminate]. inversion H; subst. exists s. split; auto.
+    destruct I as [B|(m & M & R)]; [left; auto | right; exists m; split; auto; apply (ra_fin _ _ _ R eq_refl)].
+  - destruct (step k s) as [[k' s']|] eqn:ST.
+    + eapply IH; [ eapply step_Lin; eauto | eapply step_FL; eauto | eapply step_Tail; eauto | eapply step_IA; eauto | exact H ].
+    + inversion H; subst. exists s. split; auto. destruct k as [|m0 k1]; [|simpl in ST; destruct (handle m0 s); discriminate ST].
+      destruct I as [B|(m & M & R)]; [left; auto | right; exists m; split; auto; apply (ra_fin _ _ _ R eq_refl)].
+Qed.
+
+(** the hypotheses of the theorem on the final trace *)
+Definition ret_ids (t : list ev) : list N := flat_map (fun e => match e with ERetNew r => [r] | _ => [] end) t.
+
+Definition no_container_leak (t : list ev) : Prop :=
+  forall kd id, In (ELeak kd id) t -> leak_kind kd = false.
+
+Lemma ret_ids_app a b : ret_ids (a ++ b) = ret_ids a ++ ret_ids b.
+Proof. apply flat_map_app. Qed.
+
+Lemma ret_ids_rev t : ret_ids (rev t) = rev (ret_ids t).
+Proof.
+  induction t as [|e t IH]; simpl; auto. rewrite ret_ids_app, IH. simpl. rewrite app_nil_r.
+  destruct e; simpl; rewrite ?app_nil_r; reflexivity.
+Qed.
+
+Lemma creT_count r t : creT (RRet r) t = Z.of_nat (count_occ N.eq_dec (ret_ids t) r).
+Proof.
+  induction t as [|e t IH]; [reflexivity|]. cbn [creT]. rewrite IH, cre1_ret. destruct e; try reflexivity.
+  simpl ret_ids. simpl count_occ. destruct (N.eq_dec r0 r) as [->|NE].
+  - rewrite N.eqb_refl. lia.
+  - destruct (N.eqb r r0) eqn:Q; [apply N.eqb_eq in Q; congruence | lia].
+Qed.
+
+Lemma NoDup_creT r t : NoDup (ret_ids (rev t)) -> creT (RRet r) t <= 1.
+Proof.
+  intros ND. rewrite ret_ids_rev in ND. apply NoDup_rev in ND. rewrite rev_involutive in ND.
+  rewrite creT_count. pose proof (proj1 (NoDup_count_occ N.eq_dec _) ND r). lia.
+Qed.
+
+Theorem C05_core_proved : forall (d : dkind) (p : list top) (fuel : nat) (t : list ev),
+  exec d fuel p = Done t -> NoDup (ret_ids t) -> no_container_leak t -> okA t = true.
+Proof.
+  intros d p fuel t H ND NL. unfold exec in H.
+  destruct (run_invA fuel _ _ _ (Lin_init d p) (FL_init d p) (Tail_init d p) (IA_init d p) H) as (s' & -> & [[(r & B)|(kd & id & IN & LK)]|(m & M & F)]).
+  - exfalso. pose proof (NoDup_creT r _ ND). lia.
+  - exfalso. rewrite (NL kd id) in LK; [discriminate|]. apply -> in_rev. exact IN.
+  - unfold okA. rewrite fold_mon_rev, M. exact F.
+Qed.
+
+Print Assumptions C05_core_proved.
